@@ -46,7 +46,10 @@ def encode_frames(sess, names: list[str]) -> bytes:
     noise = sess.dev.noise_key is not None
     out = b""
     for n in names:
-        if n == "discreq":
+        if ":" in n:  # "<frame>:<k>" = only the first k bytes of that frame arrive (a fragment; the rest never does)
+            base, k = n.split(":")
+            out += encode_frames(sess, [base])[: int(k)]
+        elif n == "discreq":
             out += sess.encode(pb.DisconnectRequest())
         elif n == "discresp":
             out += sess.encode(pb.DisconnectResponse())
